@@ -145,6 +145,21 @@ def cell_tags(path, nd, aux, two_d):
     return t
 
 
+def _any_nonempty(x):
+    """some innermost list (a set of column indices) of a nested list is non-empty"""
+    if isinstance(x, (list, tuple)):
+        if x and not any(isinstance(v, (list, tuple)) for v in x):
+            return True
+        return any(_any_nonempty(v) for v in x if isinstance(v, (list, tuple)))
+    return False
+
+
+def _any_below(x, thr):
+    if isinstance(x, (list, tuple)):
+        return any(_any_below(v, thr) for v in x)
+    return isinstance(x, float) and x == x and x < thr
+
+
 def replay(job, rec):
     """-> {"evaluations": n, "mismatches": [...], "nontrivial": bool, "features": [...]}"""
     scn = job["scn"]
@@ -252,6 +267,10 @@ def replay(job, rec):
                                          {}, severity="drift",
                                          tags={"prop": prop, "warns": w.category.__name__}))
                 errs = compare(obs, e)
+                if isinstance(e, dict) and e.get("k") == "pwidx" and _any_nonempty(to_py(obs)):
+                    feats.append("pairwise_index_set_nonempty")
+                if isinstance(e, dict) and e.get("k") == "tail_t" and _any_below(to_py(obs), 0.05):
+                    feats.append("pairwise_p_below_0.05")
                 if errs:
                     path, o, x = errs[0]
                     tags = dict(base_tags, prop=prop.split("@")[0], out_nd=e.get("nd", 0))
